@@ -27,8 +27,6 @@ def model_decode(ops, workdir):
 # ---------------------------------------------------------------- generic comparison
 
 def norm_rust(line):
-    if line.startswith('err '):
-        line, _ = common.strip_cost(line)
     if line == 'bad-op': return 'unconstructible'
     return line
 
@@ -42,6 +40,11 @@ def cmp_class(r, l): return r.split(' ', 1)[0] == l.split(' ', 1)[0]
 def cmp_accept(r, l):
     if r.startswith('err') and l.startswith('err'): return True
     return common.strip_cost(r)[0] == common.strip_cost(l)[0]
+def cmp_kind(r, l):
+    """value on ok, error KIND without payload on err, no cost"""
+    r = common.strip_cost(r)[0]; l = common.strip_cost(l)[0]
+    if r.startswith('err') and l.startswith('err'): return r.split(' ')[:2] == l.split(' ')[:2]
+    return r == l
 
 # ---------------------------------------------------------------- per property
 
@@ -170,7 +173,7 @@ def o_C10(cases, rust, lean, V, wd):
             d = ref.get(i)
             if d is None or not d.startswith('ok') or lower_text(sort_mandatory_text(value_of(d))) != lower_text(sort_mandatory_text(dedup_text(arg))):
                 V.failing.append((i, 'element does not round-trip through its own codec pair: %s' % (d or '')[:80]))
-        if opk == 'enc.struct' and i > 0 and rust[i - 1] != r:
+        if opk == 'enc.struct' and i > 0 and cases[i - 1].op == 'enc.rr ' + arg and rust[i - 1] != r:
             V.failing.append((i, 'struct encode differs from RR::encode'))
         if isinstance(c.exp, tuple) and c.exp[0] == 'EMBED' and r.startswith('ok ') and rust[i - 2].startswith('ok '):
             mb = bytes.fromhex(r[3:]); eb = bytes.fromhex(rust[i - 2][3:])
@@ -238,9 +241,39 @@ def state_ok(kind, st):
     if kind == 'api.cookie': return len(p[0]) == 16 and (p[1] == 'none' or (p[1] != '-' and 8 <= len(p[1]) // 2 <= 32))
     return True
 
+def names_in_text(t):
+    """all domain names (tuples of label bytes) inside a canonical msg/rr text"""
+    toks = t.split(' '); out = []
+    def parse(s): return () if s == '.' else tuple(bytes.fromhex(h) for h in s.split('.'))
+    for i, x in enumerate(toks):
+        try:
+            if x == 'Q' and i + 1 < len(toks): out.append(parse(toks[i + 1]))
+            elif x == 'RR' and i + 2 < len(toks): out.append(parse(toks[i + 2]))
+            else:
+                j = x.find('=d:')
+                if j >= 0: out.append(parse(x[j + 3:]))
+        except ValueError:
+            pass
+    return out
+
+def name_limit_problem(r):
+    """a decoded value holding a label outside 1..=63 octets or a name of more than 255 wire octets"""
+    if not r.startswith('ok '): return None
+    for n in names_in_text(value_of(r)):
+        wire = sum(len(l) + 1 for l in n) + 1
+        if wire > 255: return 'decoded name of %d wire octets' % wire
+        if any(not 1 <= len(l) <= 63 for l in n): return 'decoded label outside 1..=63 octets'
+    return None
+
 def o_C12(cases, rust, lean, V, wd):
     for i, (c, r) in enumerate(zip(cases, rust)):
         kind = c.op.split(' ', 1)[0]
+        if kind.startswith('dec.'):
+            pr = name_limit_problem(r)
+            if pr: V.failing.append((i, pr))
+            if r.startswith('ok ') and lean[i].startswith('err AddressError'):
+                V.failing.append((i, 'decoded an address-prefix value that violates its constraint (%s)' % lean[i]))
+            continue
         if r.startswith('panic'):
             V.failing.append((i, 'API call panicked')); continue
         if kind in ('api.ecs', 'api.apitem', 'api.cookie') and r.startswith('new=ok@'):
@@ -281,6 +314,12 @@ def o_C13(cases, rust, lean, V, wd):
     check_encoded(cases, rust, V, wd, layout=False)
     for i, (c, r) in enumerate(zip(cases, rust)):
         t = c.op.split(' ')
+        if t[0].startswith('dec.'):
+            pr = name_limit_problem(r)
+            if pr: V.failing.append((i, 'wire decoding does not enforce the name limits: ' + pr))
+            elif r.startswith('err') and lean[i].startswith('ok'):
+                V.failing.append((i, 'wire decoding rejects a name within the limits: ' + r))
+            continue
         if t[0] == 'text.eq' and r.startswith('eq='):
             def labs(s): return [] if s == '.' else [lower_label(bytes.fromhex(h)) for h in s.split('.')]
             want = labs(t[1]) == labs(t[2])
@@ -297,8 +336,9 @@ def o_C14(cases, rust, lean, V, wd):
         if r.startswith('nondet') or r.startswith('panic'):
             V.failing.append((i, r))
         if c.tag == 'repeat':
-            if c.op in seen and seen[c.op] != r: V.failing.append((i, 'same value encoded to different bytes'))
-            seen[c.op] = r
+            if c.op in seen and seen[c.op] != r:
+                V.failing.append((i, 'the same call gave a different result later in the same process: first "%s", now "%s"' % (seen[c.op][:80], r[:80])))
+            seen.setdefault(c.op, r)
 
 def o_C15(cases, rust, lean, V, wd):
     check_encoded(cases, rust, V, wd, layout=False)
